@@ -197,9 +197,12 @@ def gen_case(rng, tier):
             if k in seen and f["maj"] > 0:
                 f["body"] = [list(x) for x in seen[k]["body"]]
             seen.setdefault(k, f)
+    unreg = rng.random() < 0.25        # calls with allow_unregulated_fixed_port_id=False (the default), some port-IDs unregulated
     for f in defs:
         if rng.random() < 0.12:
             f["port"] = 7000 + rng.choice([f["id"], f["id"], 0, 1])          # collisions between unrelated definitions on purpose
+            if unreg and rng.random() < 0.4:
+                f["port"] = rng.choice([100, 6143, 7168, 8000]) + f["id"]     # outside the vendor range 6144..7167
     if flavor == "twins":
         defs.append(B.make_twin(rng, defs, rng.choice(defs), True))
     if flavor == "digits":
@@ -227,6 +230,8 @@ def gen_case(rng, tier):
                     trs.append(r)
             qs.append({"k": "files", "targets": ts, "roots": trs, "lookups": [list(r) for r in roots if r not in trs and rng.random() < 0.8]})
     case = {"files": defs, "queries": qs, "flavor": flavor, "dirs": [list(r) for r in roots]}
+    if unreg:
+        case["allow_unreg"] = False
     for q in qs:
         q["mutations"] = gen_mutations(rng, case, q)
     return case
